@@ -161,7 +161,7 @@ class Matrix:
                 J = ~constrain
             else:
                 J = numpy.isnan(constrain)
-                lhs[~J] = constrain[~J]
+                lhs[~J] = constrain[~J].reshape((-1,) + (1,) * (lhs.ndim-1))
         if rconstrain is None:
             assert nrows == ncols
             I = J
